@@ -1,9 +1,13 @@
 import NLE.Theorems.C01
+import NLE.Proofs.PromptInv
 /-!
-# C10 — priority takeover preempts only strictly lower priority (safety clause)
+# C10 — priority takeover preempts only strictly lower priority, and promptly
 
-The promptness clause (a higher-priority instance leads within three heartbeat intervals) is a timed
-two-instance argument; it is validated on traces by the monitor `C10/...` and not proved (see DESIGN.md §9).
+Safety is proved in the ownership model.  Promptness (a higher-priority, takeover-enabled follower leads within
+three heartbeat intervals) is proved in the timed model `NLE.Prompt` of the mechanism — the incumbent's refresh
+cadence, notification of every refresh, "second notification of a known owner starts a takeover attempt" — and
+validated end-to-end on implementation traces by the monitor `C10/takeover-not-prompt`; the model's assumptions
+about the watcher are not tied to the code by an acceptor (partial).
 -/
 namespace NLE.Theorems.C10
 open NLE NLE.Own
@@ -39,5 +43,63 @@ theorem no_takeover_when_disabled {evs : List TEv} {s : State} (h : run {} evs =
 example : (match run {} C01.f10Trace with
     | .ok s => s.hist.any (fun m => m.kind == .takeover && m.who == 2)
     | .error _ => false) = true := by decide
+
+/-! ### Promptness -/
+
+open NLE.Prompt in
+/-- In every execution of the mechanism with `W + 4L < H`, as long as the follower does not lead the clock has not
+    passed `since + 2(H+L) + W + 3L`: two refresh intervals of the incumbent (the first notification makes the owner
+    known, the second starts the attempt), one notification delay, one attempt. -/
+theorem takeover_within_bound (p : Prompt.Par) (hpar : p.W + 4 * p.L < p.H) (t0 hb : Nat) (pend known : Bool)
+    (hhb : hb ≤ t0) (hdue : t0 ≤ hb + p.H + p.L) (hp : pend = true → t0 ≤ hb + p.W)
+    (acts : List Prompt.Act) (s : Prompt.St) (h : Prompt.run p (Prompt.init t0 hb pend known) acts = some s)
+    (hl : s.lead = false) : s.now ≤ s.since + Prompt.bound p := by
+  have inv := Prompt.run_inv hpar (Prompt.inv_init p t0 hb pend known hhb hdue hp) acts h
+  exact Nat.le_trans (Prompt.now_le_dl inv hl) (inv.progress hl)
+
+/-- `since` never changes: it is the instant the follower became eligible. -/
+theorem since_fixed (p : Prompt.Par) (t0 hb : Nat) (pend known : Bool) (acts : List Prompt.Act) (s : Prompt.St)
+    (h : Prompt.run p (Prompt.init t0 hb pend known) acts = some s) : s.since = t0 := by
+  have gen : ∀ (acts : List Prompt.Act) (s0 s : Prompt.St), Prompt.run p s0 acts = some s → s.since = s0.since := by
+    intro acts
+    induction acts with
+    | nil => intro s0 s h; simp [Prompt.run] at h; subst h; rfl
+    | cons a as ih =>
+      intro s0 s h
+      simp only [Prompt.run] at h
+      split at h
+      · rename_i s1 h1
+        have e1 : s1.since = s0.since := by
+          cases a <;> simp only [Prompt.step] at h1
+          · split at h1
+            · cases h1; rfl
+            · split at h1 <;> cases h1; rfl
+          · split at h1
+            · cases h1; rfl
+            · split at h1 <;> cases h1; rfl
+          · split at h1
+            · cases h1
+            · split at h1
+              · cases h1; rfl
+              · split at h1 <;> cases h1 <;> rfl
+          · split at h1 <;> cases h1; rfl
+        rw [ih s1 s h, e1]
+      · cases h
+  exact gen acts _ s h
+
+/-- With operation latency and notification delay up to a tenth of the heartbeat interval the bound is below three
+    intervals. -/
+theorem within_three_intervals (p : Prompt.Par) (hL : 10 * p.L ≤ p.H) (hW : 10 * p.W ≤ p.H) (hH : 0 < p.H) :
+    p.W + 4 * p.L < p.H ∧ Prompt.bound p < 3 * p.H := by
+  unfold Prompt.bound
+  constructor <;> omega
+
+/-! Non-vacuity: H = 1000, L = W = 100; the follower becomes eligible right after a refresh and leads at 2 600. -/
+def p0 : Prompt.Par := { H := 1000, L := 100, W := 100 }
+example : (match Prompt.run p0 (Prompt.init 0 0 false false)
+      [.advance 1100, .hbApply, .advance 1200, .deliver, .advance 2200, .hbApply, .advance 2300, .deliver, .advance 2600, .attemptEnd] with
+    | some s => s.lead && s.now == 2600 && decide (s.now = s.since + Prompt.bound p0) | none => false) = true := by decide
+/-- The clock cannot pass a stage's deadline. -/
+example : Prompt.run p0 (Prompt.init 0 0 false false) [.advance 1101] = none := by decide
 
 end NLE.Theorems.C10
